@@ -84,6 +84,7 @@ type FnCtx struct {
 	next0    string
 	entry    *State
 	assumed  map[string]bool // trusted/assumed things used
+	reShapes map[string]*reShape // regexps compiled from a constant in this function (regexpmodel.go)
 	warnings []string
 	depth    int
 	wfSet    map[string]bool
@@ -187,6 +188,10 @@ func (c *FnCtx) oblige(st *State, path, kind, goal, desc string, pos token.Pos) 
 		o.Pos = fmt.Sprintf("%s:%d", shortFile(p.Filename), p.Line)
 	}
 	c.obls = append(c.obls, o)
+	if strings.HasPrefix(kind, "safety:") && c.contract != nil && c.contract.CheckFacts {
+		// the continuation runs only if the check passed (the obligation above does not see this assertion: PrefixLen)
+		c.assume(st, goal)
+	}
 }
 
 func shortFile(f string) string {
@@ -263,6 +268,8 @@ type loopInfo struct {
 	measure0 string
 	entryNext string // allocation counter when the loop was entered (loopBound() in its invariants)
 	preState  *State // state in which the loop was entered, before the havoc (loopentry(e) in its clauses)
+	entryState *State // state in which the loop was entered (atLoop(n, e))
+	iterNext  string // allocation counter at the loop head of the iteration being executed (iterBound(n))
 }
 
 func (c *FnCtx) subset(format string, a ...interface{}) { subsetf(format, a...) }
